@@ -20,6 +20,11 @@ func nestedScenario(w *sim.World) {
 	desc := fmt.Sprintf("nestedcrdtimpl nodes=%d NUM_OPS=%d BUFFER_SIZE=%d (G-counter operators)", nn, numOps, buffer)
 	w.Event("cfg %s", desc)
 	wd := env.NewWorld(w)
+	if w.Choose(sim.KCfg, 2) == 1 {
+		// injected refusals: an environment resource aborts an attempt at a drawn operation (no step in the spec)
+		wd.FaultBudget = 1 + w.Choose(sim.KCfg, 6)
+		w.Probe("env_refusals_enabled")
+	}
 	wd.MaxAbortsAtVersion = 1 << 30 // enabledness of resources is computed from the state (ResHasWork)
 	n := envsys.NewNestedCRDT(wd, nn, numOps, buffer)
 	stateOf := func(i int) tla.Value {
